@@ -45,8 +45,11 @@ ASSUMPTIONS = [
     "produce them); values nested deeper than ~200 levels are checked by the direct oracle only, not against the model (Python's recursion limit is "
     "environmental; the model's counterpart is its fuel); IntValue texts are canonical decimal (no `-0`)",
     "'structurally wrong' = array/object where a specified scalar is expected, non-string where an enum is expected, non-object where an input "
-    "object is expected; the library's lenient scalar coercions (Int from numeric string / integral float / bool, String and ID from numbers, "
-    "Boolean by truthiness of scalars, Float from numeric string) are pinned by the suite and are modelled, not flagged; Python `bool` is an `int`",
+    "object is expected, AND a JSON scalar of the wrong kind for a built-in scalar (boolean / string / float for Int, number for String, …): the "
+    "library accepts many of the latter through variables (Int from numeric string / integral float / bool, String and ID from numbers, Boolean by "
+    "truthiness, Float from numeric string / bool) while rejecting them inline - KNOWN FINDING A8, pinned by tests/test_utilities/"
+    "test_coerce_value.py; modelled faithfully (int_accepts_iff / float_accepts_iff), reported as cross-kind-scalar-accepted:* / "
+    "inline-vs-variable-differs:*; Python `bool` is an `int`",
     "custom scalars are PARAMETERS of the model (`Reg.customParse` / `Reg.customParseLiteral`: arbitrary partial functions, nothing assumed): a value "
     "conforms iff the scalar's own parser produced it (`CustomOK`); `RegOK.customNotNone` (a parser never answers None to a non-null input) and, for "
     "literal/variable equivalence only, `CustomAgree` (the scalar's two parsers agree) are hypotheses about that user code, with witnesses that they "
@@ -878,6 +881,17 @@ class Checker:
                              "an exception other than a coercion error escaped graphql_blocking for a JSON variable value",
                              self.detail(world, spec, g, route, {"check": "no-raise", "exception": out[1]}))
         if provided:
+            # (A8) a JSON scalar of the WRONG KIND for a built-in scalar is structurally wrong too: it must be rejected, and the
+            #      same spelling inline and through a variable must agree (known finding A8: the lenient scalar coercions are pinned)
+            ck = cross_kind(reg, t, j)
+            if ck and outcomes.get("var", ("",))[0] == "called":
+                ctx.fail("cross-kind-scalar-accepted:%s:%s" % ck,
+                         "a JSON %s sent through a variable of type %s reached the resolver" % (ck[1], ck[0]),
+                         self.detail(world, spec, g, "var", {"check": "cross-kind", "kwargs": outcomes["var"][1]}))
+                if outcomes.get("lit", ("",))[0] == "rejected":
+                    ctx.fail("inline-vs-variable-differs:%s:%s" % ck,
+                             "the same value is rejected inline and accepted through a variable of the same type",
+                             self.detail(world, spec, g, "var", {"check": "cross-kind", "lit": list(outcomes["lit"]), "var": list(outcomes["var"])}))
             # (O2) stated must-reject classes never reach the resolver (every route that delivers j to position t)
             ds = U.defects(reg, t, j)
             for route in ("lit", "var", "vardef", "vardef-nullable", "var-nullable-locdefault"):
@@ -938,6 +952,21 @@ class Checker:
         if tri:
             return r
         return r[0] == "ok"
+
+
+BUILTIN = ("Int", "Float", "String", "Boolean", "ID")
+
+
+def cross_kind(reg, t, j):
+    """(scalar name, json kind) when `j` is a JSON SCALAR of the wrong JSON kind for a built-in scalar position `t`
+    (a boolean or a string for Int, a number for String, …; containers are the `list-at-X` / `object-at-X` classes); else None"""
+    u = nullable(t)
+    if u[0] != "named" or u[1] not in BUILTIN or j is None or j is OMIT or isinstance(j, (list, dict)):
+        return None
+    if U.natural(reg, u, j):
+        return None
+    k = "bool" if isinstance(j, bool) else ("int" if isinstance(j, int) else ("float" if isinstance(j, float) else "str"))
+    return u[1], k
 
 
 def route_class(route):
@@ -1202,6 +1231,8 @@ def run_allowed(ctx, world, reg, reg_id, specs, n):
                          L(NN(N(base))), N(base), NN(N(base)), N(rng.choice(names_of(reg)))])
         if vt[0] == "nonNull" and vt[1][0] == "nonNull":
             continue
+        if U.ty_base(vt) not in world.schema.types:
+            continue          # a type no field reaches is not part of the schema: the rule skips the usage (UnknownType), KnownTypeNames reports it
         good = [j for j in U.values_for(reg, vt, rng, 1, False, 4) if j is not None and U.must_accept(reg, vt, j)]
         dmode = rng.choice(["none", "null", "value"]) if (good and vt[0] != "nonNull") else "none"
         dlit = None if dmode == "none" else (("null",) if dmode == "null" else U.ast_of_json(reg, vt, good[0]))
@@ -1521,6 +1552,26 @@ def safe_json(j):
     return json.dumps(j)
 
 
+def run_cross_kind(ctx):
+    """every JSON scalar kind at every built-in scalar position, inline and through a variable (known finding A8: the combinations the
+    lenient scalars accept are reported deterministically on every run; a NEW accepted combination is a new signature)"""
+    reg = U.fixed_registry()
+    specs = [[arg("x", N(n))] for n in BUILTIN] + [[arg("x", NN(N(n)))] for n in BUILTIN]
+    world = World(reg, specs)
+    chk = Checker(ctx, reg, "cross-kind")
+    values = [True, False, 5, 0, 1.0, 1.5, "5", "1.5", "abc", "true", ""]
+    for si, spec in enumerate(specs):
+        a = spec[0]
+        for j in values:
+            g = make_group(reg, si, a, a["type"], j, None, None)
+            g["cases"] = {r: c for r, c in g["cases"].items() if r in ("lit", "var")}
+            outcomes = {route: world.pipeline(case) for route, case in g["cases"].items()}
+            ctx.count(len(outcomes))
+            ck = cross_kind(reg, a["type"], j)
+            ctx.stat("cross-kind:%s:%s" % ("natural" if ck is None else "%s-%s" % ck, outcomes["var"][0]))
+            chk.check_group(world, spec, g, outcomes)
+
+
 def run_extremes(ctx):
     """JSON values at the edge: ±inf, NaN, integers far beyond a double, and containers nested hundreds / thousands deep through a
     RECURSIVE input object — sent through `variables` to every kind of position and to `coerce_value` directly. The statement's
@@ -1664,8 +1715,9 @@ def run(ctx):
     # corpus first
     run_corpus(ctx)
     run_extremes(ctx)
+    run_cross_kind(ctx)
     run_collisions(ctx)
-    run_pynum(ctx, ctx.n(3000, 15000))
+    run_pynum(ctx, ctx.n(2000, 15000))
     # the hand-written registry: all type expressions up to 3 wrappers (quick: all <=2, a sample of depth 3)
     reg = U.fixed_registry()
     allt = U.all_types(names_of(reg), 3)
@@ -1677,7 +1729,7 @@ def run(ctx):
         types = allt
     ctx.extra["type_expressions_fixed_registry"] = len(types)
     run_registry(ctx, reg, "fixed", types, per_type=8 if quick else 14, depth=2 if quick else 3,
-                 max_cases=1700 if quick else 16000, n_abstract=5 if quick else 16, n_trace=150 if quick else 1500)
+                 max_cases=1400 if quick else 16000, n_abstract=4 if quick else 16, n_trace=100 if quick else 1500)
     # seeded random registries
     n = ctx.n(2, 10)
     for i in range(n):
